@@ -254,7 +254,9 @@ CLAIMED["C06"] = dict(
          "class; C06_builtin — built-ins are found unless re-bound; C06_unhooked / C06_sub_unhooked / C06_too_deep — modules that do "
          "not opt in, un-hooked sub-modules and sub-modules at the depth limit are not searched (5 deep in, 6 deep out); "
          "C06_found_last / C06_exposed / C06_found_nested — an exposed class is found under its name at every placement the rule "
-         "reaches (the last binding wins: why names must be distinct); C06_custom_not_child / C06_custom_is_body — custom_* groups are never tree children.",
+         "reaches (the last binding wins: why names must be distinct); C06_custom_not_child / C06_custom_is_body — custom_* groups are never tree children; "
+         "C06_custom_attrs_returned — of the body Custom.to_h5 writes (customBody) the reader hook's dictionary has exactly the attribute "
+         "names as keys, for every attribute class and name.",
     note="C06_found_nested covers EVERY placement: the walk is exactly the sequence of its bindings (walkMembers_eq / classDict_eq), "
          "so with distinct class names every class the documented rule reaches (C06_reaches_class / C06_reaches_submodule: top "
          "level of a module with _emd_hook is True, hooked sub-modules within the depth limit) is what the lookup returns; five "
